@@ -92,6 +92,23 @@ def two_units():
     return u
 
 
+def sym_setup(betterproto):
+    # the Timestamp / Duration units below run on the datetime / timedelta models of C15
+    from .c15 import sym_setup as time_setup
+
+    return time_setup(betterproto)
+
+
+def time_units():
+    """Timestamp / Duration fields (datetime / timedelta on the Python side): the conversion kernels of C15 over every span and instant, the
+    boundary constants, and the repeated / optional / oneof / map-value positions (binary codec and the reference at the witnesses)"""
+    from . import c15
+
+    return [("time-fields: duration[all spans]", c15.h_duration, {"binary_only": True}), ("time-fields: duration[boundaries]", c15.h_duration_boundaries, {"binary_only": True}),
+            ("time-fields: timestamp[aware, any offset]", c15.h_timestamp, {"aware": True, "binary_only": True}), ("time-fields: timestamp[boundaries]", c15.h_timestamp_boundaries, {"binary_only": True}),
+            ("time-fields: positions[repeated, optional, oneof, map value]", c15.h_positions, {"binary_only": True})]  # fmt: skip
+
+
 def units(tier):
     u = []
     for kind in catalogue.S1_KINDS:
@@ -111,6 +128,7 @@ def units(tier):
     for kind in ("string", "bytes", "message", "packed", "map"):
         u.append(("long-payload[%s]" % kind, h_long, {"kind": kind}))
     u += two_units()
+    u += time_units()
     return u
 
 
